@@ -653,3 +653,17 @@ Proof.
   induction a as [|o a IH]; intros b S; cbn [app run_complete run_sys]; [reflexivity|].
   rewrite IH. rewrite Bool.andb_assoc. reflexivity.
 Qed.
+
+(* ---------- batching: any split of an answer that loses nothing gives the same result ---------- *)
+Lemma fold_left_concat : forall {A B} (f : A -> B -> A) (chunks : list (list B)) (a : A),
+  fold_left (fun acc c => fold_left f c acc) chunks a = fold_left f (concat chunks) a.
+Proof.
+  intros A B f chunks. induction chunks as [|c chunks IH]; intros a; cbn [fold_left concat]; [reflexivity|].
+  rewrite fold_left_app. apply IH.
+Qed.
+Theorem batches_lossless_tombs : forall chunks r,
+  apply_tomb_batches chunks r = fold_left apply_tomb (concat chunks) r.
+Proof. intros. apply fold_left_concat. Qed.
+Theorem batches_lossless_rows : forall chunks l,
+  put_batches chunks l = fold_left put_node (concat chunks) l.
+Proof. intros. apply fold_left_concat. Qed.
